@@ -28,12 +28,20 @@ class C12(Prop):
         "NV.C12.countCond_spec",
         "NV.C12.pollBlocks_spec",
         "NV.C12.growBy_pos",
+        "NV.C12.cSpaceRule_discard",
+        "NV.C12.arrivals_append_partial",
+        "NV.C12.arrivals_discard",
+        "NV.C12.userIO_ovf",
+        "NV.C12.run_ovf",
         "NV.C12.firstUserSlot_spec",
         "NV.C12.backendOrder_spec",
         "NV.C12.errorReentry_spec",
         "NV.C12.gucOrder_spec",
         "NV.C12.gucScanOrder_spec",
         "NV.C12.pucOrder_spec",
+        "NV.C12.firstCmdInBufOrder_spec",
+        "NV.C12.cmdInBufOrder_spec",
+        "NV.C12.nextCmdInBufOrder_spec",
         "NV.C12.cursor_in_bounds",
         "NV.C12.run_never_crashes",
         "NV.C12.processIO_safe",
@@ -41,7 +49,6 @@ class C12(Prop):
         "NV.C12.at_most_one_per_user_per_cycle",
         "NV.C12.no_turn_no_service",
         "NV.C12.per_user_fifo",
-        "NV.C12.arrivals_append",
         "NV.C12.command_efun_unlimited",
         "NV.C12.command_efun_needs_no_turn",
         "NV.C12.scan_spec",
@@ -113,7 +120,7 @@ class C12(Prop):
         "NV.C12.inLoop_fold",
         "NV.C12.cmdLoop_inLoop",
     ]
-    witness_theorems = []
+    witness_theorems = ["NV.C12.arrivals_append_Full_false"]
     consts = [("hasCmdTurn", "HAS_CMD_TURN"), ("cmdInBuf", "CMD_IN_BUF"), ("singleChar", "SINGLE_CHAR"),
               ("maxText", "MAX_TEXT")]
     const_headers = ["src/comm.h"]
@@ -132,7 +139,9 @@ class C12(Prop):
                   "efun, exec() moving a connection to another object, uncaught LPC errors that abort an iteration and restart the loop) for all tables, cursors, queue depths "
                   "and scripts; TOP THEOREM model_satisfies_spec: judgeEv (events sc cs) = [] - the specification oracle (all five "
                   "clause oracles: twice / outside / crash / malformed, efun, fifo, starved / idleWait, overtaken) accepts the "
-                  "trace of the model for every history with plain bytes and every script oracle; the model is tied to the source by regenerated "
+                  "trace of the model for every history with plain bytes in which get_user_data never discards a text buffer "
+                  "(overflow = false; otherwise the open finding C13-typeahead-discard applies: arrivals_append_Full_false) and "
+                  "every script oracle; the model is tied to the source by regenerated "
                   "expressions, flag bits and AST statement orders (bridging lemmas are obligations) and by stepping the REAL "
                   "backend() loop (guarded cycle hook; aborted iterations seen through the second poll) with loopback TCP clients "
                   "on the same histories; the Lean oracle judges every implementation trace")
@@ -142,17 +151,22 @@ class C12(Prop):
                   "NUL/BS/DEL/CR/LF: such bytes edit or split lines); input buffer size rules (C13), `!` "
                   "escapes, ed, console user are outside the model")
     rule = ("cases = corpus + boundary list + seeded random histories: 1..12 users (sometimes 50..112) connecting (accept queue), "
-            "closing, being kicked/dropped from inside commands, sparse slot layouts, several users quitting inside one command "
+            "closing, being kicked/dropped from inside commands, sparse slot layouts, 140 users at once, type-ahead of ~20 commands "
+            "per cycle up to and beyond get_user_data's discard size, several users quitting inside one command "
             "loop with nobody idle, bursts of 0..12 lines per user incl. partial lines and empty lines, get_char/input_to mode "
             "switches, nested command() calls, exec() of the connection to a fresh object, commands that raise uncaught errors (aborted iterations); every cycle of the real "
             "backend() is compared line by line with the model (commands served, iflags and slot of every user after each "
             "cycle); a case is non-trivial when at least one buffered command was executed; distinct = distinct canonical "
             "implementation trace")
-    not_covered = ["interactive_t.text compaction / overflow rules (more than ~300 bytes per user per case) - property C13; note: "
-                   "C13's open finding C13-typeahead-discard (complete type-ahead commands discarded when > 1663 bytes are "
-                   "pending) is a loss of commands that wait for their turns, i.e. it also breaks the FIFO clause of this "
-                   "property for such bursts",
-                   "`!` shell escapes with a pending input_to, ed, snooping, console user (slot 0), telnet negotiation bytes",
+    not_covered = ["runs in which get_user_data discards a text buffer (open finding C12-typeahead-discard = C13-typeahead-discard): "
+                   "the model mirrors the discard and the driver is compared on it, but the trace theorems for fifo / starved / "
+                   "idleWait / overtaken carry the side condition overflow = false",
+                   "harness discipline (also in the model): at most MAX_TEXT/16 unread bytes per user and at most MAX_EVENTS-2 "
+                   "ready descriptors per poll round; partial reads, a CR|LF split across reads, the 'no room' exit of "
+                   "reframe_single_char_input and the truncation of an over-long partial line are not modelled",
+                   "`!` shell escapes (harness and model refuse to send data containing `!`), ed, snooping, telnet negotiation bytes; console "
+                   "user: the grant loop, the scan and the cursor theorems range over slot 0 as well, but add_console_line as a "
+                   "command source (console worker thread) is not driven by the harness",
                    "heart beats: an iteration aborted by an error skips call_heart_beat() (property C11)"]
 
     # ---- tie: scheduling expressions regenerated from the source text ------------------------------------
@@ -169,8 +183,11 @@ class C12(Prop):
         return names.get(t)
 
     def gen_extra(self, ctx, bdir):
-        comm = open(os.path.join(E.REPO, "src/comm.c"), errors="replace").read()
-        back = open(os.path.join(E.REPO, "src/backend.c"), errors="replace").read()
+        def nocomment(t):      # comments are not part of any tie
+            t = re.sub(r"/\*.*?\*/", " ", t, flags=re.S)
+            return re.sub(r"//[^\n]*", " ", t)
+        comm = nocomment(open(os.path.join(E.REPO, "src/comm.c"), errors="replace").read())
+        back = nocomment(open(os.path.join(E.REPO, "src/backend.c"), errors="replace").read())
         out = []
         # (a) the rotating cursor of get_user_command: both update sites must exist and agree
         m0 = re.search(r"static char\s*\*\s*get_user_command \(\) \{(.*?)\n\}", comm, re.S)
@@ -249,6 +266,24 @@ class C12(Prop):
         if len(m6) != 1 or not re.search(r"while \(max_users < new_max_users\)\s*all_users\[max_users\+\+\] = 0;", comm):
             raise X.TieBroken("guard:table growth", "cannot locate `new_max_users = max_users + N` / the fill loop in new_interactive()")
         out.append("/-- C (new_interactive): `int new_max_users = max_users + %s;` -/\ndef growBy : Nat := %s" % (m6[0], m6[0]))
+        # (i) the space rule of get_user_data (PORT_TELNET): divisors of the two tests and of the space after a discard
+        m8 = re.search(r"text_space = \(MAX_TEXT - \(int\)ip->text_end - 1\) / (\d+);\s*if \(text_space < MAX_TEXT / (\d+)\)\s*\{"
+                       r"\s*size_t len = ip->text_end - ip->text_start;\s*memmove \(ip->text, ip->text \+ ip->text_start, len \+ 1\);\s*"
+                       r"ip->text_start = 0;\s*ip->text_end = len;\s*text_space = \(MAX_TEXT - ip->text_end - 1\) / (\d+);\s*"
+                       r"if \(text_space < MAX_TEXT / (\d+)\)\s*\{[^{}]*ip->text_start = 0;\s*ip->text_end = 0;\s*text_space = MAX_TEXT / (\d+);",
+                       comm, re.S)
+        if not m8 or m8.group(1) != m8.group(3) or m8.group(2) != m8.group(4):
+            raise X.TieBroken("guard:space rule", "get_user_data's PORT_TELNET space rule (space / compaction / discard) left its shape")
+        out.append("/-- C (get_user_data): `text_space = (MAX_TEXT - text_end - 1) / %s` -/\ndef spaceDiv : Nat := %s" % (m8.group(1), m8.group(1)))
+        out.append("/-- C (get_user_data): `if (text_space < MAX_TEXT / %s)` (both tests) -/\ndef compactDiv : Nat := %s" % (m8.group(2), m8.group(2)))
+        out.append("/-- C (get_user_data): `text_space = MAX_TEXT / %s` after the discard -/\ndef discardSpaceDiv : Nat := %s" % (m8.group(5), m8.group(5)))
+        # (j) events per poll round
+        epo = nocomment(open(os.path.join(E.REPO, "lib/async/async_runtime_epoll.c"), errors="replace").read())
+        m9 = re.findall(r"#define MAX_EVENTS (\d+)", epo)
+        if len(m9) != 1 or not re.search(r"int max_epoll_events = \(max_events < MAX_EVENTS\) \? max_events : MAX_EVENTS;\s*"
+                                         r"int result = epoll_wait\(runtime->epoll_fd, epoll_events, max_epoll_events, timeout_ms\);", epo):
+            raise X.TieBroken("guard:events per round", "cannot locate MAX_EVENTS / the epoll_wait call in lib/async/async_runtime_epoll.c")
+        out.append("/-- C (async_runtime_epoll.c): `#define MAX_EVENTS %s` - events handed out per poll round -/\ndef maxEvents : Nat := %s" % (m9[0], m9[0]))
         # (g) the slot search of new_interactive starts behind the console slot; a new interactive holds no flag
         m7 = re.findall(r"for \(i = (\d+); i < max_users; i\+\+\)\s*if \(!all_users\[i\]\)\s*break;", comm)
         if len(m7) != 1 or not re.search(r"master_ob->interactive->iflags = 0;", comm):
@@ -281,7 +316,10 @@ class C12(Prop):
         return "\n".join(out)
 
     def prepare(self, ctx):
-        self.exe = E.compile_harness("c12", [os.path.join(E.VERIF, "harness/c12/c12.c")])
+        epo = open(os.path.join(E.REPO, "lib/async/async_runtime_epoll.c"), errors="replace").read()
+        m = re.search(r"#define MAX_EVENTS (\d+)", epo)
+        self.exe = E.compile_harness("c12", [os.path.join(E.VERIF, "harness/c12/c12.c")],
+                                     extra=("-DC12_MAX_EVENTS=%s" % (m.group(1) if m else "64"),))
         self.conf = E.make_mudlib(ctx.rundir, master="/c12/master.c")
 
     def run_impl(self, ctx, cases):
@@ -383,6 +421,16 @@ class C12(Prop):
         mk("exec-moves-connection", ["script u1 =x exec;gc", "script u2 =y exec;exec;ecmd,u1,m1", "script u1 =m1 exec;it",
                                      "script u3 =k exec;kick,u3"] + conns(3) +
            ["send u1 x~ab~c~", "send u2 y~p~q~", "send u3 r~k~s~"] + ["cycle"] * 5 + ["send u1 z~", "cycle", "cycle"])
+        # type-ahead far beyond what is served (about 20 commands arrive per cycle, one is executed): everybody else is
+        # still served in every cycle; below the discard size nothing is lost
+        fl = []
+        nx = 0
+        for c in range(9):
+            s, nx = self.flood(1, nx, 30)
+            fl += [s, "send u2 x%d~" % c, "cycle"]
+        mk("long-typeahead-below-discard", conns(3) + fl + ["send u3 z~"] + ["cycle"] * 6)
+        # more users than a signed char counts: every one of them holds a command in the same cycle
+        mk("many-users-140", ["conn"] * 140 + ["cycle"] * 141 + ["send u%d a~" % i for i in range(1, 141)] + ["cycle"] * 3)
         mk("kick-waiting-user", ["script u3 =k kick,u1;kick,u2", "script u2 =s kick,u2;gc"] + conns(3) +
            ["send u1 a~b~", "send u2 a~b~", "send u3 k~c~", "cycle", "cycle", "conn", "cycle", "send u4 s~", "cycle", "cycle"])
         mk("self-kick-and-drop", ["script u2 =s kick,u2;ecmd,u1,m1", "script u1 =d drop,u1;ecmd,u1,m1;gc", "script u1 =m1 it"] +
@@ -408,6 +456,7 @@ class C12(Prop):
                                                         "send u6 y~", "send u7 z~", "send u5 w~", "cycle", "cycle"])
         mk("disconnect-with-data-and-connect", conns(3) + ["send u1 a~b~", "close u1", "conn", "send u2 x~", "cycle", "cycle",
                                                            "conn", "close u2", "cycle", "send u4 q~", "send u5 r~", "cycle", "cycle"])
+        mk("bang-is-never-sent", conns(1) + ["send u1 !a~", "send u1 b~", "send u1 c!~", "cycle", "cycle"])
         mk("no-cycle", ["conn", "send u1 a~"])
         mk("idle-cycles", ["cycle", "cycle", "conn", "cycle", "cycle", "send u1 a~", "cycle"])
         mk("everybody-kicked", ["script u1 =k kick,u2;kick,u3;kick,u1"] + conns(3) +
@@ -557,6 +606,48 @@ class C12(Prop):
             body += ["conn", "cycle", "send u%d q~" % (n + 1), "cycle", "cycle"]
         return E.Case(cid, lines + body + ["run"], {"origin": "generated-sparse"})
 
+    @staticmethod
+    def flood(user, first, nlines, tag="q"):
+        """one `send` of numbered (unique) lines, at most MAX_TEXT/16 = 128 bytes on the wire"""
+        out, raw, i = "", 0, first
+        while i < first + nlines:
+            l = "%s%d~" % (tag, i)
+            if raw + len(l) + 1 > 120:
+                break
+            out += l
+            raw += len(l) + 1
+            i += 1
+        return "send u%d %s" % (user, out), i
+
+    def gen_longqueue(self, rng, cid, cross=None):
+        """type-ahead far beyond what is served: one or two users paste ~120 bytes per cycle (about 20 commands) while one
+        command per cycle is executed; the others send now and then and must be served in every cycle.  `cross`: go on
+        until the pending text reaches the size at which get_user_data throws the buffer away (C13-typeahead-discard)"""
+        n = rng.range(2, 4)
+        flooders = [1] if rng.chance(2, 3) else [1, 2]
+        if cross is None:
+            cross = rng.chance(1, 3)
+        cycles = rng.range(14, 17) if cross else rng.range(4, 10)
+        lines = []
+        if rng.chance(1, 3):
+            lines.append("script u%d =%s gc" % (n, "x3"))
+        body = ["conn", "cycle"] * n
+        nxt = {f: 0 for f in flooders}
+        k = 0
+        for c in range(cycles):
+            for f in flooders:
+                s, nxt[f] = self.flood(f, nxt[f], 30, "q" if f == 1 else "r")
+                body.append(s)
+            for u in range(1, n + 1):
+                if u not in flooders and rng.chance(1, 2):
+                    body.append("send u%d x%d~" % (u, k))
+                    k += 1
+            body.append("cycle")
+            if c == cycles // 2 and rng.chance(1, 3) and n not in flooders:
+                body += ["close u%d" % n, "cycle"]
+        body += ["cycle"] * rng.range(3, 8)
+        return E.Case(cid, lines + body + ["run"], {"origin": "generated-longqueue"})
+
     def gen_quitters(self, rng, cid):
         """everybody holds a command in the same cycle; two or more users leave by their own command (destruct /
         remove_interactive) or are removed by somebody else's; cursor parked at a random slot; few or no idle users"""
@@ -592,6 +683,8 @@ class C12(Prop):
         for i in range(n):
             if (tier == "search" and i < 150) or i % 7 == 6:
                 out.append(self.gen_quitters(rng, "g%d" % i))
+            elif i % 11 == 10 or (tier == "search" and i < 200):
+                out.append(self.gen_longqueue(rng, "g%d" % i))
             elif i % 5 == 4:
                 out.append(self.gen_sparse(rng, "g%d" % i))
             else:
